@@ -2,15 +2,17 @@ SPECIFICATION GSpec
 CONSTANTS
   Members = {"p", "q"}
   Vals = {1, 2, 3, 4}
-  Depth = 5
+  HwMax = 3
+  Depth = 7
   Layouts = {"combined", "separate"}
   WM = {"q"}
-  WV = {3}
+  WV = {4}
   AM = {"p"}
-  AV = {4}
+  AV = {3}
   RM = {"q"}
   SWV = {0}
-  SAV = {1}
+  SAV = {}
+  RS = FALSE
 CONSTRAINT Bound
 INVARIANT Emit1
 CHECK_DEADLOCK FALSE
